@@ -54,7 +54,7 @@ func (m *Meta) TokenReader() xml.TokenReader {
 				},
 			),
 			xmlstream.Wrap(
-				xmlstream.Token(xml.CharData(m.Date.Format(time.RFC3339))),
+				xmlstream.Token(xml.CharData(m.Date.Format(time.RFC3339Nano))),
 				xml.StartElement{
 					Name: xml.Name{Local: "date"},
 				},
